@@ -155,8 +155,10 @@ func (k Keeper) RecvPacket(
 			return sdkerrors.ErrUnauthorized
 		}
 
+		// a relay chain that cannot reach the destination refuses to forward, like for a route that is not
+		// allowed: the packet is answered with an error acknowledgement instead of being stuck on its source
 		if _, found = k.clientKeeper.GetClientState(ctx, packet.GetDestChain()); !found {
-			return errorsmod.Wrap(clienttypes.ErrClientNotFound, fromChain)
+			return sdkerrors.ErrUnauthorized
 		}
 
 		k.SetPacketCommitment(ctx, packet.GetSourceChain(), packet.GetDestChain(), packet.GetSequence(), commitment)
